@@ -237,7 +237,7 @@ def check_C01(ctx):
         ctx.case(('history', k, len(h.s.lines)))
         h.finish(SECTIONS_L3, 'C01 history')
     # 2b. results remembered across a collection for re-used node numbers
-    stale_cache_templates(ctx, 40 if ctx.tier == 'quick' else 400, 'C01')
+    stale_cache_templates(ctx, 100 if ctx.tier == 'quick' else 400, 'C01')
     # 3. the `Function` operators of dd.autoref
     _function_operators(ctx)
 
@@ -506,7 +506,7 @@ def check_C02(ctx):
         ctx.add_session(s, SECTIONS_L3, f'C02 routes {order}')
         s.close()
     # 2. interleavings: structure + canonicity after every step
-    nh = 80 if ctx.tier == 'quick' else 800
+    nh = 200 if ctx.tier == 'quick' else 800
     for k in range(nh):
         if ctx.time_left() < 6:
             break
@@ -529,7 +529,7 @@ def check_C02(ctx):
         h.finish(SECTIONS_L3, 'C02 interleaving')
     # 3. removal of unused variables under nodes created bottom-up: the unique table is re-derived
     #    while levels shift, so nodes with equal successors at neighbouring levels must stay apart
-    for k in range(40 if ctx.tier == 'quick' else 400):
+    for k in range(100 if ctx.tier == 'quick' else 400):
         if ctx.time_left() < 5:
             break
         nv = rng.randint(3, 7)
@@ -918,7 +918,7 @@ def check_C06(ctx):
             break
     ctx.count('short-sequences', count)
     # 2. stale-cache template: warm cache -> drop -> gc -> re-create (number re-used) -> re-ask
-    stale_cache_templates(ctx, 30 if ctx.tier == 'quick' else 300, 'C06')
+    stale_cache_templates(ctx, 80 if ctx.tier == 'quick' else 300, 'C06')
     # 2b. every function of three variables (both signs) held through each adjacent swap,
     #     alone and together with a second held function: counts exact after the rooted collection
     sp3 = Space(ABC)
@@ -947,7 +947,7 @@ def check_C06(ctx):
                 h.finish(SECTIONS_L3, 'C06 swap-held')
     ctx.count('swap-held-functions', 512)
     # 3. long random histories with ledger
-    for k in range(40 if ctx.tier == 'quick' else 500):
+    for k in range(100 if ctx.tier == 'quick' else 500):
         if ctx.time_left() < 6:
             break
         names = [chr(ord('a') + i) for i in range(rng.randint(2, 5))]
@@ -1027,7 +1027,7 @@ def snapshot(h):
 def check_C07(ctx):
     rng = ctx.rng
     sp = Space(ABC)
-    n_sets = 150 if ctx.tier == 'quick' else 2500
+    n_sets = 400 if ctx.tier == 'quick' else 2500
     # 1. sets of <= 3 held functions over three variables x adjacent pair x order
     for order in orders_for(ctx, ABC, quick_n=3):
         for k in range(n_sets):
@@ -1093,7 +1093,7 @@ def check_C07(ctx):
             ctx.case(('held-set', tuple(fs), order, k))
             h.finish(SECTIONS_L3, f'C07 sets {order}')
     # 2. four/five variables, more pairs, repetitions
-    for k in range(40 if ctx.tier == 'quick' else 600):
+    for k in range(120 if ctx.tier == 'quick' else 600):
         if ctx.time_left() < 8:
             break
         nv = rng.randint(4, 5)
@@ -1579,7 +1579,7 @@ def malformed_calls(rng, h):
 
 def check_C17(ctx):
     rng = ctx.rng
-    n_hist = 120 if ctx.tier == 'quick' else 1500
+    n_hist = 300 if ctx.tier == 'quick' else 1500
     for k in range(n_hist):
         if ctx.time_left() < 6:
             break
